@@ -23,7 +23,7 @@ ASSUMPTIONS = ["base names range over the ASCII identifier language [A-Za-z_][A-
                "n <= 3 objects + one re-request; objects are symmetric so one request order with arbitrary names covers all orders",
                "golden/sv2017_keywords.txt (248 words, IEEE 1800-2017 Annex B) is trusted",
                "reproducibility is claimed as: names are a function of the ORDER TYPE of the tracer numbers (5 tree shapes, <= 5 symbolic numbers in 0..40, all other numbers fixed); independence of the interpreter's hash seed is claimed as: the text of one design (an attribute set and the specials set with two equally named memories) is the same for EVERY iteration order of those sets - the order is a solver-chosen permutation (nondeterministic stub, 720 combinations forked by the path explorer)"]
-BOUNDS = {"quick": "get_name: n = 1, 2 objects with re-request and the full 248-entry keyword table; n = 3 with a 4-word excerpt of the table; emitted text (real convert()): three designs (memory with write-first and read-first ports next to ports/registers, an Instance next to ports, two memories) with 2 symbolic user names and the full table, and with 3 symbolic names and the 4-word excerpt; hierarchical stage: 4 tree shapes (three_stages 5 numbers/541 order types, nested, related, dup_vs_suffixed 4 numbers/75 order types); set iteration order: 6 x 120 = 720 orders of an attribute set and the specials set (two equally named memories)", "thorough": "get_name n = 3 with the full table; emitted text as in the quick tier (3 symbolic names on the 15-declaration memory design did not finish in 75 min and is in no tier); hierarchical stage additionally nested_wide (5 numbers)"}
+BOUNDS = {"quick": "get_name: n = 1, 2 objects with re-request and the full 248-entry keyword table; n = 3 with a 4-word excerpt of the table; emitted text (real convert()): three designs (memory with write-first and read-first ports next to ports/registers, an Instance next to ports, two memories) with 2 symbolic user names and the full table, and with 3 symbolic names and the 4-word excerpt; hierarchical stage: 4 tree shapes (three_stages 5 numbers/541 order types, nested, related, dup_vs_suffixed 4 numbers/75 order types); set iteration order: 6 x 120 = 720 orders of an attribute set and the specials set (two equally named memories)", "thorough": "get_name n = 3 with the full table; emitted text as in the quick tier (3 symbolic names on the 15-declaration memory design did not finish in 75 min and is in no tier); hierarchical stage additionally nested_wide (5 numbers); hier_ios with one symbolic port name (thorough only: one string query is solver-seed sensitive)"}
 OUTSIDE = "hash-seed dependent iteration orders of containers other than the four stubbed ones of the one design of emitted_text_set_iteration_order (e.g. dictionaries/sets built inside the printers); tree shapes other than the five of the hierarchical-stage jobs and more than 5 simultaneously symbolic trace numbers; more than 3 simultaneously symbolic names; designs other than the three small ones for the emitted-text obligations (the hierarchical name stage only proposes base names and runs concretely there); identifiers that are used but not declared in the module (instance port names, parameters)"
 FUNCS = ["litex.gen.fhdl.namer.SignalNamespace.__init__", "litex.gen.fhdl.namer.SignalNamespace.get_name", "litex.gen.fhdl.verilog._ieee_1800_2017_verilog_reserved_keywords",
          "litex.gen.fhdl.namer.build_signal_namespace", "litex.gen.fhdl.namer._build_signal_name_dict", "litex.gen.fhdl.namer._build_signal_name_dict_for_group", "litex.gen.fhdl.namer._determine_name_usage", "litex.gen.fhdl.namer._set_number_usage", "litex.gen.fhdl.verilog.convert", "litex.gen.fhdl.memory._memory_generate_verilog", "litex.gen.fhdl.instance._instance_generate_verilog"]
